@@ -322,7 +322,6 @@ class CodeGenerator(nunavut._generators.AbstractGenerator):
         self._env.now_utc = datetime.datetime.utcnow()
 
         from ..lang._common import UniqueNameGenerator
-
         # reset the name generator state for this type
         UniqueNameGenerator.reset()
 
@@ -332,6 +331,7 @@ class CodeGenerator(nunavut._generators.AbstractGenerator):
         if self._post_processors is not None:
             for pp in self._post_processors:
                 if isinstance(pp, nunavut._postprocessors.LinePostProcessor):
+                    pp.reset()  # no state (e.g. the empty line count) is carried over from the previous file
                     line_pps.append(pp)
                 elif isinstance(pp, nunavut._postprocessors.FilePostProcessor):
                     file_pps.append(pp)
@@ -1007,6 +1007,8 @@ class SupportGenerator(CodeGenerator):
         target: pathlib.Path,
         line_pps: typing.List["nunavut._postprocessors.LinePostProcessor"],
     ) -> None:
+        for line_pp in line_pps:
+            line_pp.reset()
         with open(str(target), "w", encoding="utf-8") as target_file:
             with open(str(resource), "r", encoding="utf-8") as resource_file:
                 for resource_line in resource_file:
